@@ -38,10 +38,19 @@ def hier_fmin(v, u, a, M):
     nv = np.sqrt((v * v).sum(1))
     au = np.abs(u)
     cands = [np.zeros(R)]
-    for mask in itertools.product([0, 1], repeat=h):
-        m = np.array(mask, dtype=float)
-        r = (nv - a + M * (au * m).sum(1)) / (1.0 + m.sum() * M * M)
-        cands.append(np.maximum(r, 0.0))
+    if h <= 10:
+        for mask in itertools.product([0, 1], repeat=h):
+            m = np.array(mask, dtype=float)
+            r = (nv - a + M * (au * m).sum(1)) / (1.0 + m.sum() * M * M)
+            cands.append(np.maximum(r, 0.0))
+    else:
+        # F is convex and piecewise quadratic in r; on each piece the clipped hidden weights are the m largest |u_j|: the stationary points of
+        # the h+1 'top-m' pieces contain the minimiser (every candidate is evaluated on the true F below, so fewer candidates can only make
+        # the reference minimum larger, never smaller)
+        srt = -np.sort(-au, axis=1)
+        csum = np.concatenate([np.zeros((R, 1)), np.cumsum(srt, axis=1)], axis=1)
+        for m_ in range(h + 1):
+            cands.append(np.maximum((nv - a + M * csum[:, m_]) / (1.0 + m_ * M * M), 0.0))
     if M > 0:
         for j in range(h):
             cands.append(au[:, j] / M)
